@@ -1535,6 +1535,11 @@ func init() {
 			}
 			return env.mkBool(c.Eq(tag, e.fnTag(fn)))
 		},
+		"otherarray": func(env *Env, n *ast.CallExpr, args []*SVal) *SVal {
+			// otherarray(a, b): the two slices are backed by different arrays (or a is empty)
+			c := env.e.c
+			return env.mkBool(c.Or(c.Eq(args[0].Len, c.BVLit(0, 64)), c.Not(c.Eq(args[0].Base, args[1].Base))))
+		},
 		"samebase": func(env *Env, n *ast.CallExpr, args []*SVal) *SVal {
 			c := env.e.c
 			return env.mkBool(c.And(c.Eq(args[0].Base, args[1].Base), c.Eq(args[0].Off, args[1].Off)))
